@@ -39,7 +39,9 @@ def gen_case(rng, cid, ver=None, twins=False):
         out = []
         for _ in range(k):
             ci = rng.randrange(ncand)
-            out.append(G.cand(ci, rng.randrange(2) if twins else 0).hex())
+            h = G.cand(ci, rng.randrange(2) if twins else 0).hex()
+            if h not in out:          # types.ValidateSystemTx refuses a ballot naming a candidate twice
+                out.append(h)
         return out
 
     # block 1: staking, transfers
@@ -132,3 +134,79 @@ def ghost_case(cid, ver=2):
 
 def strip(case):
     return {k: v for k, v in case.items() if not k.startswith("_")}
+
+
+# ----------------------------------------------------------------- chain executor vs Gov model
+GOV_KINDS = ("stake", "unstake", "votebp", "votedao")
+SKIP_ERR = {"must stake before vote": "EMustStakeVote", "must stake before unstake": "EMustStakeUnstake",
+            "less time has passed": "ELessTime", "too small amount to influence": "ETooSmall",
+            "not supported operation": "ENotSupported", "too big amount than you have": "EExceed"}
+DEFAULTS = [3, 10 ** 22, 5 * 10 ** 10, 10 ** 18]
+
+
+def chain_case_to_coq(case, prod, fixed=True):
+    """Coq term of type ccase for one determ case and the producer's output, or None when the
+    case cannot be replayed by the governance model (a BP vote already in block 1: the genesis
+    ranking is read from the state after block 1)."""
+    import hashlib
+    for blk in case["blocks"]:
+        for t in blk["txs"]:
+            if any(not all(ch in "0123456789abcdef" for ch in c) for c in t.get("cands", [])):
+                return None      # engine-derived candidate names ("k1"): not replayed
+    b1 = prod["blocks"][0]
+    for i in b1.get("included") or []:
+        if case["blocks"][0]["txs"][i]["kind"] == "votebp":
+            return None
+    ids = G.clist(G.cid(hashlib.sha256(bytes.fromhex(a)).hexdigest()) for a in prod["accts"])
+    cfg = "{| c_ver := %d; c_fixed := %s; c_ids := %s; c_defaults := %s |}" % (
+        case["ver"], "true" if fixed else "false", ids, G.clist("(%d%%N,%s)" % (i, G.cz(v)) for i, v in enumerate(DEFAULTS)))
+    genesis_rank = G.clist("(%s,%s)" % (G.cbytes(bytes.fromhex(c)), G.cz(a)) for c, a in b1["gov"]["votes_bp"])
+    dur = ("{| d_bal := %s; d_sysbal := 0; d_stakes := []; d_total := 0; d_votes := []; d_results := [(0%%N, %s)]; "
+           "d_vtotals := []; d_params := []; d_vpr := [] |}") % (
+        G.clist("(%d%%N,%s)" % (i, G.cz(case["bal"])) for i in range(case["naccts"])), genesis_rank)
+    g0 = "{| g_no := 1; g_d := %s; g_m := {| m_pcur := []; m_pnext := []; m_vpr := vpr_empty |} |}" % dur
+    blocks = []
+    for k, (blk, pb) in enumerate(zip(case["blocks"], prod["blocks"])):
+        inc = set(pb.get("included") or [])
+        skp = {s["i"]: s["err"] for s in (pb.get("skipped") or [])}
+        txs = []
+        for i, t in enumerate(blk["txs"]):
+            if t["kind"] not in GOV_KINDS:
+                continue
+            if i in inc:
+                e = "EOk"
+            elif i in skp and skp[i] in SKIP_ERR:
+                e = SKIP_ERR[skp[i]]
+            else:
+                continue      # refused before governance execution (nonce, payload format, ...)
+            o = {"op": t["kind"], "who": t["from"], "amt": t.get("amt", "0"), "cands": t.get("cands", []), "id": t.get("id", ""), "val": t.get("val", [])}
+            coq = G.op_to_coq(o)           # "(OTx (T...))"
+            txs.append("(%s,%s)" % (coq[len("(OTx "):-1], e))
+        gv = pb["gov"]
+        accs = []
+        for a in gv["accts"]:
+            present = a["vote_bp_amt"] != "0" or a["vote_bp_cands"]
+            bp = "(Some (%s,%s))" % (G.clist(G.cbytes(bytes.fromhex(c)) for c in a["vote_bp_cands"]), G.cz(a["vote_bp_amt"])) if present else "None"
+            accs.append("(%s,%s,%s)" % (G.cz(a["staked"]), G.cz(a["staked_when"]), bp))
+        res = [G.clist("(%s,%s)" % (G.cbytes(bytes.fromhex(c)), G.cz(a)) for c, a in gv["votes_bp"])]
+        for iid in G.ISSUES[1:]:
+            res.append(G.clist("(%s,%s)" % (G.cbytes(c.encode()), G.cz(a)) for c, a in gv["votes_dao"].get(iid, [])))
+        obs = "(%s,%s,%s,%s)" % (G.cz(gv["staking_total"]), G.clist(accs), G.clist(res), G.cz(gv["vpr_total_mem"]))
+        blocks.append("(%s,\n  %s,%d)" % (G.clist(txs), obs, k + 2))
+    return "(%s,\n %s,\n %s)" % (cfg, g0, G.clist(blocks))
+
+
+CHAIN_HEAD = """From Coq Require Import ZArith NArith List Bool.
+From Verif Require Import Gov.Model Gov.Check Gov.ChainCheck.
+Import ListNotations.
+Open Scope Z_scope.
+"""
+
+
+def chain_cases_file(items):
+    out = [CHAIN_HEAD] + G.NAMES.defs()
+    for i, t in enumerate(items):
+        out.append("Definition cc%d : ccase := %s." % (i, t))
+    out.append("Definition MC := Eval vm_compute in ccases_bad %s 0." % G.clist("cc%d" % i for i in range(len(items))))
+    out.append("Print MC.")
+    return "\n".join(out)
